@@ -366,6 +366,46 @@ func x25519Events(tr *hx.Trace, r *hx.Rng, thorough bool) {
 		}
 		emit(s, u, "generic")
 	}
+	// structured RESULTS: input points constructed so that the correct output has its low / high bytes all
+	// zero (u = c 2^192, c 2^128, c 2^64, c < 2^64, ...): a zero test that looks at part of the output only
+	// would report a low-order point.  For a target r on the curve and in the prime-order subgroup the input
+	// is u([k^-1] R) with k the clamped scalar.
+	targets := 0
+	for _, shift := range []uint{192, 128, 64, 0, 200, 248} {
+		found := 0
+		for c := int64(1); c < 4000 && found < 2; c++ {
+			rU := new(big.Int).Lsh(big.NewInt(c), shift)
+			if rU.Cmp(refmodel.P) >= 0 {
+				break
+			}
+			// Edwards y of the target: (u - 1)/(u + 1)
+			den := refmodel.Fadd(rU, big.NewInt(1))
+			if den.Sign() == 0 {
+				continue
+			}
+			y := refmodel.Fmul(refmodel.Fsub(rU, big.NewInt(1)), refmodel.Finv(den))
+			yb := refmodel.LE32(y)
+			di := refmodel.Decode(yb[:])
+			if !di.OK || !di.Pt.Mul(refmodel.L).IsIdentity() || di.Pt.IsIdentity() {
+				continue
+			}
+			sc := r.Bytes(32)
+			k := new(big.Int).Mod(refmodel.Clamp(sc), refmodel.L)
+			if k.Sign() == 0 {
+				continue
+			}
+			kinv := new(big.Int).ModInverse(k, refmodel.L)
+			_, yq := di.Pt.Mul(kinv).Affine()
+			uin := refmodel.LE(refmodel.EdYToMontU(yq), 32)
+			if exp := refmodel.X25519(sc, uin); refmodel.FromLE(exp[:]).Cmp(rU) != 0 {
+				panic("structured result construction")
+			}
+			emit(sc, uin, fmt.Sprintf("result=c*2^%d", shift))
+			found++
+			targets++
+		}
+	}
+	_ = targets
 	for _, lo := range lowOrderU {
 		emit(r.Bytes(32), lo, "low-order")
 		hi := append([]byte{}, lo...)
